@@ -1,10 +1,14 @@
-\* thorough-tier universe: every documented value of every flag
+\* thorough-tier universe: every documented value of every flag, every extension, debug flags
 CONSTANTS
   Mutant = "none"
   SFmts = {"default", "python", "json", "python-full", "bad"}
   TFmts = {"default", "json", "python", "yaml", "toml", "bad"}
   Indents = {"default", "0", "1", "4"}
   TxtIds = {"qstr1", "qstr2", "blit", "bboth", "bare", "baresx", "bbad", "bname", "texpo", "texpb", "advb", "advq", "advo"}
+  Argvs = {"ok", "badindent", "toomany", "unknownflag"}
+  SExts = {"any", ".py", ".json", ".yml", ".toml", ".txt", ""}
+  TExts = {"any", ".py", ".json", ".yml", ".toml", ".txt", ""}
+  Dbgs = {"off", "debug", "inspect"}
 INIT Init
 NEXT Next
 INVARIANT ExecOnlyFull
@@ -13,6 +17,7 @@ INVARIANT DefaultRoutes
 INVARIANT ResultLaw
 INVARIANT GlomErrorLaw
 INVARIANT TargetUsageLaw
+INVARIANT ArgvLaw
 INVARIANT LawStored
 INVARIANT NoStuck
 INVARIANT KnownPrefix
